@@ -172,4 +172,28 @@ example : runC 10 Store.empty []
     = [.val (.sym "f"), .val (.sym "g"), .val (.sym "f"), .val (.sym "h"), .val (.sym "f"),
        .val (.int 3), .val (.int 3), .val (.int 3), .val (.int 3)] := by decide
 
+/-! ## what the hypotheses exclude: the two defects of the unchanged tree, in model terms
+
+`Compiled` demands that a call site keeps its arguments and that a resolved site points to *the* cell of
+its name; the following code objects violate it and evaluate differently from their source. -/
+
+/-- defect 1 (placeholder creator ignores `args`): the code object `(h)` for the source `(h 1 2)` -/
+example :
+    let Φ : FunTable := [("h", ⟨["a", "b"], .prim .add (.var "a") (.var "b")⟩)]
+    let σ := define Store.empty "h" ["a", "b"] (.prim .add (.var "a") (.var "b"))
+    evalCode σ 10 [] (.call (.cell 0) "h" []) = .err (.arity "h") ∧
+    eval Φ 10 [] (.call "h" [.const 1, .const 2]) = .val (.int 3) := by decide
+
+/-- defect 2 (a call site pointing to a cell that is no longer the name's cell, as produced when a
+    redefinition re-points the name instead of sharing the cell): stale body -/
+example :
+    let Φ : FunTable := [("f", ⟨[], .const 2⟩)]
+    let σ : Store := ⟨[("f", 1)], [some ⟨[], .const 1⟩, some ⟨[], .const 2⟩]⟩
+    evalCode σ 10 [] (.call (.cell 0) "f" []) = .val (.int 1) ∧
+    eval Φ 10 [] (.call "f" []) = .val (.int 2) ∧ ¬ RefOK σ (.cell 0) "f" := by
+  refine ⟨by decide, by decide, ?_⟩
+  intro h
+  have := h 0 rfl
+  simp [Store.cellOf, List.lookup] at this
+
 end SlipVerif.Compile
